@@ -825,4 +825,27 @@ theorem ofMesg_toMesg (T : MesgTable) (hw : T.wf = true) (fac : Nat → Field) (
       · simp [h]
   rw [hvals, hst, ← hunk', hdev']
 
+/-! ### MarkAsExpandedField -/
+
+theorem testBit_clear (x k j : Nat) : (x ^^^ (x &&& (1 <<< k))).testBit j = (x.testBit j && !decide (k = j)) := by
+  rw [Nat.testBit_xor, Nat.testBit_and, testBit_one_shiftLeft]
+  cases x.testBit j <;> cases decide (k = j) <;> rfl
+
+/-- marking an eligible number sets exactly that bit to `flag`; an ineligible number is refused and nothing changes -/
+theorem markAsExpanded_spec (T : MesgTable) (st : Struct) (k : Nat) (flag : Bool) (j : Nat) :
+    (markAsExpanded T st k flag).2 = eligible T k ∧
+    (markAsExpanded T st k flag).1.state.testBit j =
+      (if eligible T k = true ∧ k = j then flag else st.state.testBit j) ∧
+    (markAsExpanded T st k flag).1.vals = st.vals ∧ (markAsExpanded T st k flag).1.unknown = st.unknown ∧
+    (markAsExpanded T st k flag).1.dev = st.dev := by
+  unfold markAsExpanded
+  cases he : eligible T k
+  · simp
+  · simp only [↓reduceIte, true_and, and_true]
+    cases flag
+    · simp only [Bool.false_eq_true, ↓reduceIte, testBit_clear]
+      by_cases hk : k = j <;> simp [hk]
+    · simp only [↓reduceIte, Nat.testBit_or, testBit_clear, testBit_one_shiftLeft]
+      by_cases hk : k = j <;> simp [hk]
+
 end Fit.Typed
